@@ -284,6 +284,79 @@ func init() {
 		}
 	}
 	RegGen("C18", "plus a history whose channels reference 10 001 distinct timestamped streams", genManyStreams)
+	// Observations at and just above the limit on stream values.  (a) A correct observer reports exactly the 10 000
+	// values a full channel has, the other correct one and the faulty one a single value: the full observation must
+	// count (dropped, the faulty value would be the median).  (b) One observer sends 10 001 values: whatever the
+	// plugin does with it, it must do the same every time.
+	genValueLimit := func(nBig int, prop string) Gen {
+		return func(g *G) {
+			for _, ver := range []uint32{1, 0} {
+				w := newWorld(g)
+				w.f, w.hasPred, w.version, w.interval, w.alias, w.verbose = 1, false, ver, uint64(ver), 0, false
+				w.now = 1_700_000_000_000_000_000
+				streams := []any{}
+				for sid := 1; sid <= 10000; sid++ {
+					streams = append(streams, J{"sid": S(sid), "agg": "1"})
+				}
+				prev := J{"stage": "production", "ts": S(w.now - 2_000_000_000), "defs": []any{J{"id": "1", "def": J{"format": "2", "opts": "", "streams": streams}}},
+					"va": []any{J{"id": "1", "va": S(w.now - 4_000_000_000)}}, "aggs": []any{}}
+				big := []any{}
+				for sid := 1; sid <= nBig; sid++ {
+					big = append(big, J{"sid": S(sid), "v": svJ(llo.ToDecimal(decimal.New(int64(1000+sid%7), -2)))})
+				}
+				mk := func(ts uint64, vals []any) J {
+					return J{"retire": false, "attested": "", "ts": S(ts), "removes": []any{}, "updates": []any{}, "values": vals}
+				}
+				one := func(c int64) []any { return []any{J{"sid": "1", "v": svJ(llo.ToDecimal(decimal.New(c, -2)))}} }
+				var obs []any
+				var honest []any
+				if prop == "C02" {
+					// correct: the full observation (stream 1 = 10.01) and a small one (10.20); faulty: 999 at a far-away time
+					obs = []any{mk(w.now, big), mk(w.now+5, one(1020)), mk(w.now+9_000_000_000_000, one(99900))}
+					honest = []any{0, 1}
+				} else {
+					// the other two report every stream of the channel, one far below and one far above: for every single
+					// stream the value of the observer in the middle is the median
+					small := func(c int64) []any {
+						out := []any{}
+						for sid := 1; sid <= 10000; sid++ {
+							out = append(out, J{"sid": S(sid), "v": svJ(llo.ToDecimal(decimal.New(c, -2)))})
+						}
+						return out
+					}
+					obs = []any{mk(w.now, small(500)), mk(w.now+5, big), mk(w.now+9, small(3000))}
+					honest = []any{0, 2}
+				}
+				g.Emit(J{"op": "llo.outcome", "cfg": w.cfgJ(), "seqNr": 5, "prev": prev, "obs": obs, "attestations": []any{}, "honest": honest}, "outcome", fmt.Sprintf("observation-with-%d-values", nBig))
+			}
+		}
+	}
+	RegGen("C02", "plus a round in which a correct observer reports exactly 10 000 stream values", genValueLimit(10000, "C02"))
+	RegGen("C01", "plus a round in which one observer reports 10 001 stream values (one above the limit)", genValueLimit(10001, "C01"))
+	// Correct clocks beyond 2^63 ns under protocol version 0 (whose outcome codec stores a signed time): the round
+	// cannot be encoded and must fail — not yield an outcome with a time nobody reported.
+	RegGen("C02", "plus rounds whose correct observation timestamps exceed 2^63-1 ns under protocol version 0", func(g *G) {
+		for _, f := range []int{1, 2} {
+			w := newWorld(g)
+			w.f, w.hasPred, w.version, w.interval, w.alias, w.verbose = f, false, 0, 0, 0, false
+			base := uint64(1)<<63 + 1_000_000_000
+			// (validity starts are stored as 32-bit seconds under version 0, so the previous outcome is an ordinary one)
+			prev := J{"stage": "production", "ts": S(uint64(1_700_000_000_000_000_000)), "defs": []any{J{"id": "1", "def": J{"format": "2", "opts": "", "streams": []any{J{"sid": "1", "agg": "1"}}}}},
+				"va": []any{J{"id": "1", "va": S(uint64(1_699_999_996_000_000_000))}}, "aggs": []any{}}
+			obs, honest := []any{}, []any{}
+			for k := 0; k < 2*f+1; k++ {
+				ts := base + uint64(k)
+				if k >= f+1 {
+					ts = 1_700_000_000_000_000_000 // the faulty ones report an ordinary time
+				} else {
+					honest = append(honest, k)
+				}
+				obs = append(obs, J{"retire": false, "attested": "", "ts": S(ts), "removes": []any{}, "updates": []any{},
+					"values": []any{J{"sid": "1", "v": svJ(llo.ToDecimal(decimal.New(int64(1000+k), -2)))}}})
+			}
+			g.Emit(J{"op": "llo.outcome", "cfg": w.cfgJ(), "seqNr": 5, "prev": prev, "obs": obs, "attestations": []any{}, "honest": honest}, "outcome", "clock-beyond-int64")
+		}
+	})
 	for _, p := range []string{"C03", "C04", "C18", "C11"} {
 		RegGen(p, "plus histories whose timestamps differ by exactly the minimum report interval (and one nanosecond off)", genExact)
 	}
